@@ -9,17 +9,33 @@ def owners(rows):
     return sorted(u for u, s in rows.items() if not s.get("deleted") and "O" in eff(s["want"], s["given"]))
 
 
+def sessions_of(sc):
+    """sid -> user; taken from the head lines when the scenario comes from a replay/corpus file."""
+    if sc.sessions:
+        return sc.sessions
+    res = {}
+    for l in sc.head:
+        w = l.split()
+        if w and w[0] == "sess":
+            res[int(w[1])] = int(w[2])
+    return res
+
+
 def monitor(sc, views):
+    """The laws of C06 on the implementation's trace.  Fault-free prefix: all laws; after the first
+    injected store fault only the counting laws, tagged "-after-store-fault"."""
     res = []
     prev = None
     faulted = False
+    sessions = sessions_of(sc)
     for k, v in enumerate(views):
         fault, kind, args = sc.ops[k]
         if fault != "N":
             faulted = True
-        actor = sc.sessions.get(args[0]) if args else None
+        actor = sessions.get(args[0]) if args else None
         ow = owners(v.subs)
         tag = "-after-store-fault" if faulted else ""
+        # exactly one effective owner, equal to the owner field, in the store and in the cache
         if len(ow) != 1:
             res.append(("stored-owner-count-%d%s" % (len(ow), tag), k, "stored subscriptions have %d effective owners %s" % (len(ow), ow)))
         elif v.topic.get("owner") != ow[0]:
@@ -32,13 +48,20 @@ def monitor(sc, views):
                 res.append(("cached-owner-field" + tag, k, "topic.owner=%s but the cached effective owner is %s" % (v.cache.get("owner"), cw[0])))
         if prev is not None and not faulted:
             po = owners(prev.subs)
-            if len(po) == 1 and len(ow) == 1:
+            if len(po) == 1:
                 o = po[0]
                 before, after = prev.subs[o], v.subs.get(o)
-                if ow[0] == o:
-                    # no request by another user removes, bans or demotes the owner
-                    if after is None or after["deleted"] or "O" not in eff(after["want"], after["given"]) or "J" not in eff(after["want"], after["given"]):
-                        res.append(("owner-demoted", k, "owner %d removed/banned/demoted by %s of user %s" % (o, kind, actor)))
+                still = o in ow
+                moved = len(ow) == 1 and ow[0] != o
+                if not moved:
+                    if actor != o:
+                        # no request by another user removes, bans or demotes the owner
+                        lost_j = still and "J" in eff(before["want"], before["given"]) and "J" not in eff(after["want"], after["given"])
+                        if not still or lost_j:
+                            res.append(("owner-demoted-by-other", k, "owner %d removed/banned/demoted by %s of user %s" % (o, kind, actor)))
+                    elif not still:
+                        # the owner cannot unsubscribe or give up ownership except by transfer
+                        res.append(("owner-gives-up-ownership", k, "owner %d lost ownership by his own %s with no successor" % (o, kind)))
                 else:
                     n = ow[0]
                     # ownership moved: only by acceptance of a grant made by the owner
@@ -48,10 +71,10 @@ def monitor(sc, views):
                         res.append(("transfer-needs-grant", k, "user %d became owner without O in the previous grant" % n))
                     if after is not None and not after["deleted"] and ("O" in after["want"] or "O" in after["given"]):
                         res.append(("previous-owner-loses-ownership", k, "previous owner %d keeps O: %s/%s" % (o, after["want"], after["given"])))
-            # O is granted only by the owner
+            # O is granted only by the owner (a re-subscription restores the previous grant, deleted row included)
             for u, s in v.subs.items():
                 p = prev.subs.get(u)
-                had = p is not None and "O" in p["given"] and not p["deleted"]
+                had = p is not None and "O" in p["given"]
                 if "O" in s["given"] and not s["deleted"] and not had and len(po) == 1:
                     if actor != po[0] and not (actor == u and ow and ow[0] == u):
                         res.append(("grant-ownership-owner-only", k, "O appeared in the grant of user %d by %s of user %s (owner %d)" % (u, kind, actor, po[0])))
@@ -81,10 +104,95 @@ def line_f(kind, l):
     return None
 
 
+# ---------------------------------------------------------------------------
+# owner-only requests ({del topic}, {set desc public|trusted|defacs}, {set tags}): outside the op
+# alphabet of Sys/Topic.v; gate model Sys/OwnerGate.v against the real server, exhaustively.
+
+GATE_KINDS = ["deltopic", "public", "trusted", "defacs", "defacso", "tags"]
+GATE_ACTORS = {"owner": (1, 1, 1), "admin": (0, 0, 1), "pending": (0, 0, 1), "stranger": (0, 0, 0)}   # owner_c, owner_s, subscribed
+
+
+def gate_cases():
+    res = []
+    for kind in GATE_KINDS:
+        for actor in GATE_ACTORS:
+            for loaded, attached in ((0, 0), (1, 0), (1, 1)):
+                if actor == "stranger" and attached:
+                    continue    # attaching subscribes
+                for root in (0, 1):
+                    res.append((kind, actor, loaded, attached, root))
+    return res
+
+
+def gate_check(ctx, cases):
+    """-> (number of cases run, mismatches, law failures); violations are recorded in ctx"""
+    ok1, _ = ctx.build_runner()
+    ok2, _ = ctx.build_main()
+    if not (ok1 and ok2):
+        return 0, 0, 0     # reported by run_stateful
+    ilines = ["gate %s %s %d %d %d" % c for c in cases]
+    mlines = ["gate %s %d %d %d %d %d %d" % ((c[0], c[2], c[3]) + GATE_ACTORS[c[1]] + (c[4],)) for c in cases]
+    rc, impl, log = ctx.run_main_lines("c06", ilines)
+    if rc != 0 or len(impl) != len(cases):
+        ctx.violation("monitor", "server-crashed", "the server process died while running the owner-only request cases: " + log[-1500:],
+                      {"gate": ilines, "log": log[-4000:]})
+        return len(cases), 0, 1
+    rc2, model, err = ctx.run_model("c06", mlines)
+    if rc2 != 0 or len(model) != len(cases):
+        ctx.violation("proof", "runner-crashed", "model runner failed on the gate cases: " + err[-1500:], {"theorem_or_obligation": "model runner c06"})
+        return len(cases), 0, 0
+    fails, mism = [], []
+    for c, il, i, m in zip(cases, ilines, impl, model):
+        w = i.split()
+        if len(w) < 2 or w[0] not in ("all", "own", "none"):
+            fails.append(("owner-only-op-unanswered", il, i))
+            continue
+        if w[0] == "all" and c[1] != "owner":
+            fails.append(("owner-only-op", il, i))
+        if "lost=" in i:
+            fails.append(("owner-only-op-foreign-subscription-lost", il, i))
+        if w[0] == "own" and c[0] != "deltopic":
+            fails.append(("owner-only-op", il, i))
+        if w[:2] != m.split() or ("loaded=%d" % c[2]) not in w or ("attached=%d" % c[3]) not in w:
+            mism.append((il, i, m))
+    seen = set()
+    for law, il, i in fails:
+        if law not in seen:
+            seen.add(law)
+            ctx.violation("monitor", law, "law %s fails on the real server: request '%s' by a user who is not the owner answered '%s' (%d such cases)"
+                          % (law, il, i, len([1 for f in fails if f[0] == law])), {"gate": [il], "law": law, "observed": i})
+    if mism and not fails:
+        il, i, m = mism[0]
+        ctx.violation("corr", "correspondence-owner-gate",
+                      "gate model Sys/OwnerGate.v and the server disagree on %d of %d owner-only request cases; first: '%s' server '%s' model '%s'; no non-owner was served in any of the %d cases (the case space is run exhaustively)"
+                      % (len(mism), len(cases), il, i, m, len(cases)), {"correspondence": "owner-only gate", "gate": [x[0] for x in mism[:20]]})
+    return len(cases), len(mism), len(fails)
+
+
+def parse_gate_line(l):
+    w = l.split()
+    return (w[1], w[2], int(w[3]), int(w[4]), int(w[5]))
+
+
 def run(ctx):
+    import json
+    if ctx.replay:
+        rp = json.load(open(ctx.replay))
+        if "gate" in rp.get("replay", {}):
+            ctx.coq_props()
+            import vlib
+            vlib.proof_violation(ctx)
+            n, mm, ff = gate_check(ctx, [parse_gate_line(l) for l in rp["replay"]["gate"]])
+            ctx.coverage.update({"evaluations": n, "distinct_nontrivial": n, "rule": "replay of owner-only request cases"})
+            ctx.finish()
+    else:
+        n, mm, ff = gate_check(ctx, gate_cases())
+        ctx.coverage["owner_only_gate"] = {
+            "cases_run_on_real_server": n, "exhaustive_over": "6 request kinds x {owner, administrator without O, pending transferee, stranger} x {not loaded, loaded by another session, attached} x {auth, root}",
+            "mismatches_with_gate_model": mm, "law_failures": ff}
     statelib.run_stateful(
         ctx, [("perm", 0.0, 0.75), ("perm", 0.12, 0.25)], monitor,
         dict(ops={"sub", "setsub", "delsub", "leave"}, frame=frame_f, line=line_f, keys=("frames", "store", "cache")),
         rule="seeded random histories over one group topic: subscribe (arbitrary requested modes incl. O, junk), invite / permission change by owner, approvers, sharers, members, pending transferees (seeded O in the grant), strangers; acceptance, self-ban, leave, unsubscribe, eviction, with unload/restart between steps and a share with single store faults; non-trivial = at least one accepted mutating request",
         trusted=["projection compared for C06: ctrl replies of sub/set-sub/del-sub/leave requests, stored want/given/deleted per user and topics.owner, cached want/given per user and Topic.owner",
-                 "{del topic}, {set desc}, {set tags} (owner-only operations) are outside the group-topic model; C13/C14 drivers exercise them without judging ownership"])
+                 "{del topic}, {set desc public|trusted|defacs}, {set tags}: gate model Sys/OwnerGate.v (decision only: who is served, reply code, whether the effect is topic-wide / own subscription / none), compared with the real server on every case of its input space by harness/overlay/server/zz_verif_c06_test.go; the effects themselves (what is deleted, notifications) are not modelled"])
